@@ -13,15 +13,15 @@ import (
 )
 
 type c06Row struct {
-	Name   string   `json:"name"`
-	Method string   `json:"method,omitempty"`
-	ReqCC  string   `json:"req_cc,omitempty"`
-	ReqHdr string   `json:"req_hdr,omitempty"` // "range" | "inm-match" | "inm-other" | "ims"
-	RespCC []string `json:"resp_cc,omitempty"`
-	Expires string  `json:"expires,omitempty"`
-	LastMod string  `json:"last_mod,omitempty"`
-	FailAt  int     `json:"fail_at,omitempty"` // -1 no failure; else body fails after this many bytes (0, 1, mid, last)
-	Reval   string  `json:"reval,omitempty"`   // second phase: validate a stored entry with a 304 carrying this Cache-Control
+	Name    string   `json:"name"`
+	Method  string   `json:"method,omitempty"`
+	ReqCC   string   `json:"req_cc,omitempty"`
+	ReqHdr  string   `json:"req_hdr,omitempty"` // "range" | "inm-match" | "inm-other" | "ims"
+	RespCC  []string `json:"resp_cc,omitempty"`
+	Expires string   `json:"expires,omitempty"`
+	LastMod string   `json:"last_mod,omitempty"`
+	FailAt  int      `json:"fail_at,omitempty"` // -1 no failure; else body fails after this many bytes (0, 1, mid, last)
+	Reval   string   `json:"reval,omitempty"`   // second phase: validate a stored entry with a 304 carrying this Cache-Control
 }
 
 func c06Table() []c06Row {
@@ -143,7 +143,9 @@ func c06Run(r *run.Runner, c c06Case) {
 	case "ims":
 		spec.Header["If-Modified-Since"] = []string{"Sat, 01 Jan 2000 00:00:00 GMT"}
 	}
-	sig := func(v mon.V) string { return v.Sig + ",row=" + rowClass(row.Name) + fmt.Sprintf(",status=%dxx", c.Status/100) }
+	sig := func(v mon.V) string {
+		return v.Sig + ",row=" + rowClass(row.Name) + fmt.Sprintf(",status=%dxx", c.Status/100)
+	}
 	nWrites := 0
 	visit := func(ex *sim.Exchange) {
 		r.AddEvaluations(1)
